@@ -54,6 +54,19 @@ Theorem C10_introspect_describes_any_depth : forall (D : Type) (pr : sty -> opti
   exists r, introspect pr S F = IntroOk r /\ normalise r = truncate query_depth (describe pr S F).
 Proof. exact introspect_describes_upto_depth. Qed.
 
+(** The same over a history: whatever requests were made before on the same schema value, under
+    whatever feature sets, each response is the description for ITS feature set.  In the model
+    this is immediate — [serve] has no state, the response is a function of (S, F) — and that is
+    the point: the correspondence check runs histories [F, F', F] on one *schema.Schema value
+    (also on the clone's and the rebuilt schema) and judges every step against this stateless
+    model, so an implementation that remembers anything from an earlier request (a cache of the
+    types listing keyed without the features) disagrees with it. *)
+Theorem C10_introspect_history_independent : forall (D : Type) (pr : sty -> option gval -> D) S reqs,
+  interfaces_declared_once S = true -> locations_known S = true ->
+  Forall2 (fun F a => exists r, a = IntroOk r /\ normalise r = truncate query_depth (describe pr S F))
+          reqs (serve pr S reqs).
+Proof. exact introspect_history_independent. Qed.
+
 (** Nothing is cut when the chains of the definition have at most 8 levels ([depth_ok]): then the
     response IS the description.  The bound is exactly the nesting of the query document
     (harness: the real introspection.Query is run on chains of 0..9 wrappers). *)
@@ -264,6 +277,7 @@ Print Assumptions C10_registry_exact.
 Print Assumptions C10_members_exact.
 Print Assumptions C10_types_listed_once.
 Print Assumptions C10_introspect_describes_any_depth.
+Print Assumptions C10_introspect_history_independent.
 Print Assumptions C10_introspect_describes.
 Print Assumptions C10_typeref_complete_at_depth.
 Print Assumptions C10_deep_chain_truncated_refuted.
